@@ -23,6 +23,8 @@ structure SockR (nbuf : Nat) (m : MSock) (t : Sock) : Prop where
       ∧ m.cache.outIf.getD 0 = m.kern.mcIf ∧ (t.loopSet = true → m.cache.loop = m.kern.loop)
   cands : ∀ cur len, m.read = some (cur, len) → ∃ pre, m.cands = pre ++ [(cur, len)]
   candsLt : ∀ c ∈ m.cands, c.1 < nbuf
+  candsInc : m.cands.Pairwise (fun a b => a.1 < b.1)
+  readLen : ∀ cur len, m.read = some (cur, len) → 0 < len
 
 def OptR (nbuf : Nat) : Option MSock → Option Sock → Prop
   | none, none => True
@@ -121,7 +123,8 @@ theorem SockR.fresh (n : Nat) (kind : Kind) (kern : Kern) (cache : Cache)
     (hg : kind = .peer → cache.ttl = kern.ttl ∧ cache.localAddr = kern.name ∧ cache.outIp = kern.mcIf ∧ cache.outIf.getD 0 = kern.mcIf) :
     SockR n (freshSock kind kern cache)
       { kern := kern, memb := Memb.empty, out := [], pend := none, loopSet := false, isOpen := true } := by
-  refine ⟨rfl, rfl, rfl, rfl, fun _ => rfl, MembR.init, fun hk => ?_, fun cur len hr => by simp [freshSock] at hr, fun c hc => by simp [freshSock] at hc⟩
+  refine ⟨rfl, rfl, rfl, rfl, fun _ => rfl, MembR.init, fun hk => ?_, fun cur len hr => by simp [freshSock] at hr, fun c hc => by simp [freshSock] at hc,
+    by simp [freshSock], fun cur len hr => by simp [freshSock] at hr⟩
   obtain ⟨a, b, c, d⟩ := hg hk
   exact ⟨a, b, c, d, fun hl => by simp at hl⟩
 
@@ -242,7 +245,7 @@ theorem SockR.setOpts {n : Nat} {m : MSock} {t : Sock} (hr : SockR n m t) (kern'
     (hg : m.kind = .peer → cache'.ttl = kern'.ttl ∧ cache'.localAddr = kern'.name ∧ cache'.outIp = kern'.mcIf
       ∧ cache'.outIf.getD 0 = kern'.mcIf ∧ (ls = true → cache'.loop = kern'.loop)) :
     SockR n { m with kern := kern', cache := cache' } { t with kern := kern', loopSet := ls } :=
-  ⟨rfl, hr.isOpen, hr.out, hr.pend, hr.closedRead, hr.memb, hg, hr.cands, hr.candsLt⟩
+  ⟨rfl, hr.isOpen, hr.out, hr.pend, hr.closedRead, hr.memb, hg, hr.cands, hr.candsLt, hr.candsInc, hr.readLen⟩
 
 /-- A setter of a peer followed by the getters: new kernel record `kern'`, new cache `cache'`. -/
 theorem accept_setter_getters {w : World} {st : S} (h : R w st) {s : Nat} {m : MSock} (hl : live w s = some m)
@@ -350,7 +353,7 @@ theorem refines_setOut {w : World} {st : S} (h : R w st) (s : Nat) (i : IfName) 
 
 theorem SockR.setMemb {n : Nat} {m : MSock} {t : Sock} (hr : SockR n m t) (k' : KMembs) (a' : Memb) (hm : MembR k' a') :
     SockR n { m with membs := k' } { t with memb := a' } :=
-  ⟨hr.kern, hr.isOpen, hr.out, hr.pend, hr.closedRead, hm, hr.getters, hr.cands, hr.candsLt⟩
+  ⟨hr.kern, hr.isOpen, hr.out, hr.pend, hr.closedRead, hm, hr.getters, hr.cands, hr.candsLt, hr.candsInc, hr.readLen⟩
 
 theorem step_memb_some {st : S} {s : Nat} {t : Sock} (ht : st.socks s = some t) (op : MOp) (err : Errc) :
     Sonic.Spec.Datagram.step st (.memb s (some op) err) = .ok (setSock st s { t with memb := mstep t.memb op (err == .nil) }) := by
@@ -415,7 +418,7 @@ theorem setSock_same {st : S} {s : Nat} {t : Sock} (ht : st.socks s = some t) : 
   simp [setSock, this]
 
 theorem SockR.setBroken {n : Nat} {m : MSock} {t : Sock} (hr : SockR n m t) (b : Bool) : SockR n { m with broken := b } t :=
-  ⟨hr.kern, hr.isOpen, hr.out, hr.pend, hr.closedRead, hr.memb, hr.getters, hr.cands, hr.candsLt⟩
+  ⟨hr.kern, hr.isOpen, hr.out, hr.pend, hr.closedRead, hr.memb, hr.getters, hr.cands, hr.candsLt, hr.candsInc, hr.readLen⟩
 
 theorem refines_brk {w : World} {st : S} (h : R w st) (s : Nat) : Refines w st (.brk s) := by
   unfold Refines
@@ -444,5 +447,245 @@ theorem refines_mend {w : World} {st : S} (h : R w st) (s : Nat) : Refines w st 
       rw [setSock_same ht] at this
       exact ⟨st, rfl, this⟩
     · simp only [hc, Bool.false_eq_true, if_false]; exact accept_skipped h
+
+theorem refines_close {w : World} {st : S} (h : R w st) (s : Nat) : Refines w st (.close s) := by
+  unfold Refines
+  simp only [Model.Datagram.step]
+  cases hl : live w s with
+  | none => exact accept_skipped h
+  | some m =>
+    obtain ⟨hs, hw, hcl, t, ht, hr⟩ := h.ofLive hl
+    by_cases hb : m.broken = true
+    · simp only [hb, if_true]; exact accept_skipped h
+    · simp only [hb, Bool.false_eq_true, if_false]
+      refine ⟨setSock st s { t with isOpen := false, out := [], pend := none }, ?_, ?_⟩
+      · rw [run_one]; simp [Sonic.Spec.Datagram.step, ht]
+      · refine h.putSock s ⟨hr.kern, rfl, rfl, rfl, fun _ => rfl, hr.memb, hr.getters, ?_, hr.candsLt, hr.candsInc, ?_⟩
+        · intro cur len hx; simp at hx
+        · intro cur len hx; simp at hx
+
+/-- Operations the theorems are about: buffers handed to a read are not empty. -/
+def OpOk : Op → Bool
+  | .read _ len => 0 < len
+  | .setBuf _ len => 0 < len
+  | _ => true
+
+theorem pairwise_snoc {l : List (Nat × Nat)} {n : Nat} (hp : l.Pairwise (fun a b => a.1 < b.1)) (hl : ∀ c ∈ l, c.1 < n) (len : Nat) :
+    (l ++ [(n, len)]).Pairwise (fun a b => a.1 < b.1) := by
+  rw [List.pairwise_append]
+  refine ⟨hp, by simp, ?_⟩
+  intro a ha b hb
+  simp only [List.mem_singleton] at hb
+  subst hb
+  exact hl a ha
+
+theorem refines_setBuf {w : World} {st : S} (h : R w st) (s len : Nat) (hlen : 0 < len) : Refines w st (.setBuf s len) := by
+  unfold Refines
+  simp only [Model.Datagram.step]
+  cases hl : live w s with
+  | none => exact accept_skipped h
+  | some m =>
+    obtain ⟨hs, hw, hcl, t, ht, hr⟩ := h.ofLive hl
+    by_cases hk : m.kind = .peer
+    · simp only [hk, bne_self_eq_false, Bool.false_eq_true, if_false]
+      have hlt : ∀ c ∈ m.cands ++ [(w.nbuf, len)], c.1 < w.nbuf + 1 := by
+        intro c hc
+        simp only [List.mem_append, List.mem_singleton] at hc
+        rcases hc with hc | hc
+        · exact Nat.lt_succ_of_lt (hr.candsLt c hc)
+        · subst hc; exact Nat.lt_succ_self _
+      have hinc := pairwise_snoc hr.candsInc hr.candsLt len
+      cases hrd : m.read with
+      | none =>
+        have key : SockR (w.nbuf + 1) { m with cands := m.cands ++ [(w.nbuf, len)], read := m.read.map fun _ => (w.nbuf, len) } t := by
+          refine ⟨hr.kern, hr.isOpen, hr.out, ?_, ?_, hr.memb, hr.getters, ?_, hlt, hinc, ?_⟩
+          · simp [hrd, hr.pend]
+          · intro _; simp [hrd]
+          · intro cur l hx; simp [hrd] at hx
+          · intro cur l hx; simp [hrd] at hx
+        have hR := h.bump.putSock s key
+        rw [setSock_same ht] at hR
+        refine ⟨st, ?_, by simpa only [hk, hrd] using hR⟩
+        rw [run_one]; simp [Sonic.Spec.Datagram.step, ht, hr.pend, hrd]
+      | some x =>
+        have key : SockR (w.nbuf + 1) { m with cands := m.cands ++ [(w.nbuf, len)], read := m.read.map fun _ => (w.nbuf, len) }
+            { t with pend := some (w.nbuf, len) } := by
+          refine ⟨hr.kern, hr.isOpen, hr.out, ?_, ?_, hr.memb, hr.getters, ?_, hlt, hinc, ?_⟩
+          · simp [hrd]
+          · intro hc; simp [hcl] at hc
+          · intro cur l hx; simp [hrd] at hx; obtain ⟨h1, h2⟩ := hx; subst h1; subst h2; exact ⟨m.cands, rfl⟩
+          · intro cur l hx; simp [hrd] at hx; obtain ⟨h1, h2⟩ := hx; subst h2; exact hlen
+        have hR := h.bump.putSock s key
+        refine ⟨_, ?_, by simpa only [hk, hrd] using hR⟩
+        rw [run_one]; simp [Sonic.Spec.Datagram.step, ht, hr.pend, hrd]
+    · have : (m.kind != Kind.peer) = true := by simpa using hk
+      simp only [this, if_true]
+      exact accept_skipped h
+
+
+theorem lookup_snoc (L : List (Nat × Nat)) (cur len : Nat) (val : List UInt8) (f : Nat × Nat → List UInt8)
+    (hL : ∀ c ∈ L, c.1 ≠ cur) :
+    ((L ++ [(cur, len)]).map (fun c => (c.1, if c.1 == cur then val else f c))).lookup cur = some val := by
+  induction L with
+  | nil => simp [List.lookup]
+  | cons c L ih =>
+    have hc : c.1 ≠ cur := hL c (by simp)
+    have hc' : (cur == c.1) = false := by simpa using fun h => hc h.symm
+    simp only [List.cons_append, List.map_cons, List.lookup, hc']
+    exact ih (fun x hx => hL x (by simp [hx]))
+
+theorem lookup_shown (cands pre : List (Nat × Nat)) (cur len : Nat) (val : List UInt8) (f : Nat × Nat → List UInt8)
+    (hc : cands = pre ++ [(cur, len)]) (hinc : cands.Pairwise (fun a b => a.1 < b.1)) :
+    ((cands.drop (cands.length - 4)).map (fun c => (c.1, if c.1 == cur then val else f c))).lookup cur = some val := by
+  subst hc
+  have hk : (pre ++ [(cur, len)]).length - 4 ≤ pre.length := by simp
+  rw [List.drop_append_of_le_length hk]
+  apply lookup_snoc
+  intro c hcm
+  have hm : c ∈ pre := List.mem_of_mem_drop hcm
+  rw [List.pairwise_append] at hinc
+  have := hinc.2.2 c hm (cur, len) (by simp)
+  exact Nat.ne_of_lt this
+
+
+theorem min_eq_zero_iff_nil {l : List UInt8} {len : Nat} (hlen : 0 < len) : min l.length len = 0 ↔ l = [] := by
+  constructor
+  · intro h
+    have : l.length = 0 := by omega
+    exact List.eq_nil_of_length_eq_zero this
+  · intro h; subst h; simp
+
+theorem errc_nil_bne : (Errc.nil != Errc.nil) = false := by decide
+theorem errc_eof_bne : (Errc.eof != Errc.nil) = true := by decide
+
+/-- One `recvfrom` of the model is accepted by the monitor as the completion of the pending read: it delivers
+the oldest queued datagram into the buffer most recently designated. -/
+theorem accept_recv {st : S} {s : Nat} {m : MSock} {t : Sock} {cur len : Nat} (hlen : 0 < len)
+    (ht : st.socks s = some t) (hout : t.out = m.rxq) (hpend : t.pend = some (cur, len))
+    (hc : ∃ pre, m.cands = pre ++ [(cur, len)]) (hinc : m.cands.Pairwise (fun a b => a.1 < b.1))
+    {m' : MSock} {ev : Ev} (hrecv : recv s m cur len = some (m', ev)) :
+    ∃ d q, m.rxq = d :: q ∧ m' = { m with rxq := q, read := none, cands := [] } ∧
+      Sonic.Spec.Datagram.step st ev = .ok (setSock st s { t with out := q, pend := none }) := by
+  unfold recv at hrecv
+  cases hq : m.rxq with
+  | nil => simp [hq] at hrecv
+  | cons d q =>
+    refine ⟨d, q, rfl, ?_⟩
+    simp only [hq] at hrecv
+    obtain ⟨pre, hpre⟩ := hc
+    have hlook := lookup_shown m.cands pre cur len (d.data.take (min d.data.length len))
+      (fun c => prefill c.1 (min (min d.data.length len) c.2)) hpre hinc
+    split at hrecv
+    · rename_i hn
+      have hn : min d.data.length len = 0 := by simpa using hn
+      have hd : d.data = [] := (min_eq_zero_iff_nil hlen).1 hn
+      split at hrecv
+      · simp only [Option.some.injEq, Prod.mk.injEq] at hrecv
+        obtain ⟨h1, h2⟩ := hrecv
+        subst h1; subst h2
+        refine ⟨rfl, ?_⟩
+        simp only [Sonic.Spec.Datagram.step, ht, hpend, hout, hq, takeFirst, hd, errc_nil_bne, Bool.false_eq_true, if_false,
+          beq_self_eq_true, if_true]
+      · simp only [Option.some.injEq, Prod.mk.injEq] at hrecv
+        obtain ⟨h1, h2⟩ := hrecv
+        subst h1; subst h2
+        refine ⟨rfl, ?_⟩
+        simp only [Sonic.Spec.Datagram.step, ht, hpend, hout, hq, takeFirst, hd, errc_eof_bne, if_true,
+          beq_self_eq_true, Bool.and_self]
+    · rename_i hn0
+      have hn : ¬ min d.data.length len = 0 := by simpa using hn0
+      have hn' : (min d.data.length len == 0) = false := by simpa using hn
+      have hd : d.data ≠ [] := fun h0 => hn ((min_eq_zero_iff_nil hlen).2 h0)
+      have hd' : (d.data != []) = true := by simpa using hd
+      simp only [Option.some.injEq, Prod.mk.injEq] at hrecv
+      obtain ⟨h1, h2⟩ := hrecv
+      subst h1; subst h2
+      refine ⟨rfl, ?_⟩
+      simp only [Sonic.Spec.Datagram.step, ht, hpend, hout, hq, takeFirst, fits, hlook, errc_nil_bne, Bool.false_eq_true, if_false,
+          beq_self_eq_true, if_true, hn', hd', Bool.and_self]
+
+
+theorem recv_none {s : Nat} {m : MSock} {cur len : Nat} (h : recv s m cur len = none) : m.rxq = [] := by
+  unfold recv at h
+  cases hq : m.rxq with
+  | nil => rfl
+  | cons d q =>
+    simp only [hq] at h
+    split at h
+    · split at h <;> simp at h
+    · simp at h
+
+theorem step_readStart {st : S} {s : Nat} {t : Sock} (ht : st.socks s = some t) (hp : t.pend = none) (buf len : Nat) :
+    Sonic.Spec.Datagram.step st (.readStart s buf len) = .ok (setSock st s { t with pend := some (buf, len) }) := by
+  simp [Sonic.Spec.Datagram.step, ht, hp]
+
+theorem step_readNone {st : S} {s : Nat} {t : Sock} (ht : st.socks s = some t) (ho : t.out = []) :
+    Sonic.Spec.Datagram.step st (.readNone s) = .ok (setSock st s { t with pend := none }) := by
+  simp [Sonic.Spec.Datagram.step, ht, ho]
+
+theorem step_readPending {st : S} {s : Nat} {t : Sock} (ht : st.socks s = some t) (ho : t.out = []) :
+    Sonic.Spec.Datagram.step st (.readPending s) = .ok st := by
+  simp [Sonic.Spec.Datagram.step, ht, ho]
+
+theorem refines_read {w : World} {st : S} (h : R w st) (s len : Nat) (hlen : 0 < len) : Refines w st (.read s len) := by
+  unfold Refines
+  simp only [Model.Datagram.step]
+  cases hl : live w s with
+  | none => exact accept_skipped h
+  | some m =>
+    obtain ⟨hs, hw, hcl, t, ht, hr⟩ := h.ofLive hl
+    by_cases hc : (m.broken || m.read.isSome) = true
+    · simp only [hc, if_true]; exact accept_skipped h
+    · simp only [hc, Bool.false_eq_true, if_false]
+      have hrd : m.read = none := by
+        cases hx : m.read with
+        | none => rfl
+        | some x => simp [hx] at hc
+      have hp : t.pend = none := by rw [hr.pend, hrd]
+      have hout : t.out = m.rxq := by rw [hr.out]; simp [hcl]
+      have hlt : ∀ c ∈ m.cands ++ [(w.nbuf, len)], c.1 < w.nbuf + 1 := by
+        intro c hc
+        simp only [List.mem_append, List.mem_singleton] at hc
+        rcases hc with hc | hc
+        · exact Nat.lt_succ_of_lt (hr.candsLt c hc)
+        · subst hc; exact Nat.lt_succ_self _
+      have hinc := pairwise_snoc hr.candsInc hr.candsLt len
+      have h1 := step_readStart ht hp w.nbuf len
+      have ht1 : (setSock st s { t with pend := some (w.nbuf, len) }).socks s = some { t with pend := some (w.nbuf, len) } := by
+        simp [setSock, upd]
+      cases hrecv : recv s { m with cands := m.cands ++ [(w.nbuf, len)] } w.nbuf len with
+      | some x =>
+        obtain ⟨m', ev⟩ := x
+        obtain ⟨d, q, hq, hm', hstep⟩ := accept_recv (st := setSock st s { t with pend := some (w.nbuf, len) }) hlen ht1
+          (m := { m with cands := m.cands ++ [(w.nbuf, len)] }) (by simpa using hout) rfl ⟨m.cands, rfl⟩ hinc hrecv
+        simp only
+        refine ⟨_, by rw [run_two _ _ _ h1]; exact hstep, ?_⟩
+        rw [setSock_setSock, hm']
+        refine h.bump.putSock s ⟨hr.kern, hr.isOpen, by simp [hcl], rfl, fun _ => rfl, hr.memb, hr.getters, ?_, ?_, ?_, ?_⟩
+        · intro cur l hx; simp at hx
+        · intro c hc; simp at hc
+        · simp
+        · intro cur l hx; simp at hx
+      | none =>
+        have hq := recv_none hrecv
+        have hq' : m.rxq = [] := by simpa using hq
+        have hto : t.out = [] := by rw [hout, hq']
+        simp only
+        by_cases hk : m.kind = .raw
+        · simp only [hk, beq_self_eq_true, if_true]
+          refine ⟨setSock st s { t with pend := none }, ?_, ?_⟩
+          · rw [run_two _ _ _ h1, step_readNone ht1 hto, setSock_setSock]
+          · have key := h.bump.putSock s (m := { m with cands := [] }) (t := { t with pend := none })
+              ⟨hr.kern, hr.isOpen, hr.out, by simp [hrd], hr.closedRead, hr.memb, hr.getters,
+               by intro cur l hx; simp [hrd] at hx, by intro c hc; simp at hc, by simp, by intro cur l hx; simp [hrd] at hx⟩
+            simpa only [hk] using key
+        · have hk' : (m.kind == Kind.raw) = false := by simpa using hk
+          simp only [hk', Bool.false_eq_true, if_false]
+          refine ⟨setSock st s { t with pend := some (w.nbuf, len) }, ?_, ?_⟩
+          · rw [run_two _ _ _ h1, step_readPending ht1 hto]
+          · exact h.bump.putSock s (m := { m with cands := m.cands ++ [(w.nbuf, len)], read := some (w.nbuf, len) })
+              ⟨hr.kern, hr.isOpen, hr.out, rfl, fun hx => by simp [hcl] at hx, hr.memb, hr.getters,
+               by intro cur l hx; simp at hx; obtain ⟨a, b⟩ := hx; subst a; subst b; exact ⟨m.cands, rfl⟩,
+               hlt, hinc, by intro cur l hx; simp at hx; obtain ⟨a, b⟩ := hx; subst b; exact hlen⟩
 
 end Sonic.Lemmas.Datagram
